@@ -19,6 +19,8 @@
      StuckLocal       refused local datagram left in UdpFramed's buffer    (=> cU wedged)
      PropagateBind    `new_out(..).await?` / `sink.send(..).await?`        (=> cU exited)
      ReplyTaskEnds    reply task breaks on a refused reply                 (replies of that binding stop)
+     EncoderPanics    an encoder that panics on one legal datagram (an empty one, whose padding does not fit the space
+                      reserved for it): the panic unwinds the task that holds the datagram loop AND the TCP listener
      BoundedHandshakes a fixed number of handshakes in flight, the accept loop waits for a free slot
                                                                           (a crowd of silent peers => sT blocked)
    With Dev = {} every loop stays "run" for ever: CanariesSucceed.  TLC enumerates every fault sequence up to MaxLen
@@ -42,7 +44,7 @@ vars == <<sT, sU, cT, cU, held, assocDead, replyDead, script, done>>
 AllFaults == {"SilentCrowdServer", "SilentCrowdClient", "TcpSilentServer", "TcpSilentClient", "TlsGarbage", "WsGarbage", "ResetAtServer", "HalfLocalHandshake",
               "UnresolvableTcp", "RefusedTcp", "TargetResets", "AppResets",
               "GarbageDatagram", "ReplayedDatagram", "UnresolvableUdp", "MalformedLocalShort", "MalformedLocalFrag",
-              "MalformedLocalType", "OversizedDatagram", "OversizedReply", "FdExhaustServer", "FdExhaustClient"}
+              "MalformedLocalType", "OversizedDatagram", "OversizedReply", "EmptyDatagram", "FdExhaustServer", "FdExhaustClient"}
 
 ASSUME Faults \subseteq AllFaults
 
@@ -54,6 +56,7 @@ D(x) == x \in Dev
 \* reaction of the four loops to one fault (a function of the fault and the deviations that are switched on)
 React(f) ==
   /\ sT' = CASE f \in {"TcpSilentServer", "SilentCrowdServer"} /\ D("InlineTls") -> "blocked"
+             [] f = "EmptyDatagram" /\ HasUdpLoop /\ D("EncoderPanics") -> "exited"
              [] f = "SilentCrowdServer" /\ D("BoundedHandshakes") -> "blocked"
              [] f = "FdExhaustServer" /\ D("ExitOnAcceptErr") -> "exited"
              [] OTHER -> sT
@@ -62,6 +65,7 @@ React(f) ==
              [] OTHER -> cT
   /\ sU' = CASE sU = "none" -> "none"
              [] f = "OversizedReply" /\ D("PropagateSendTo") -> "exited"
+             [] f = "EmptyDatagram" /\ D("EncoderPanics") -> "exited"
              \* a datagram of the SAME session after its task ended
              [] f \in {"ReplayedDatagram", "UnresolvableUdp"} /\ assocDead /\ D("PropagateSend") -> "exited"
              [] OTHER -> sU
